@@ -4,6 +4,7 @@
   nothing is stored; there is no third outcome, by the type of `setScalar`.)
 -/
 import Astm.Model.Fields
+import Astm.Lemmas.ReadBack
 import Astm.Generated.Schemas
 import Astm.Contract.Schemas
 
@@ -150,6 +151,18 @@ theorem date_stored_exact (sp : Scalar) (s : Str) (v : V) (hk : sp.kind = .date)
     subst hts
     exact ⟨h.symm, h2, h4⟩
 
+/-- "An accepted value is stored as a string that reads back to the same value": for every scalar field of
+    every kind except the JSON list (which re-encodes its input), handing the stored text to the same field
+    again stores exactly that text — integers in their canonical spelling, dates / times / timestamps with
+    the very digits, codes and constants unchanged. -/
+theorem stored_value_reads_back (sp : Scalar) (w : Field) (v : Str) (h : setScalar sp w = .ok (some v))
+    (hk : sp.kind ≠ .jsonList) : setScalar sp (.text v) = .ok (some v) :=
+  setScalar_reads_back sp w v h hk
+
+/-- `int(str(n)) = n` for the model of `int()` : the canonical spelling stored by an integer field denotes
+    the integer that was accepted -/
+theorem integer_reads_back (n : Int) : pyInt (intStr n) = some n := pyInt_intStr n
+
 /-- number of fields / components: more values than declared raise an error, nothing is built -/
 theorem too_many_values_error {α : Type} (specs : List α) (items : List Field) (h : items.length > specs.length) :
     zipFields specs items = .error .value := by
@@ -164,6 +177,7 @@ theorem example_calendar :
     validTime "125960".toList = false ∧
     (checkDigits 14 2 (fun v => validDate (v.take 8) && validTime (v.drop 8)) "202301011230".toList).toOption
       = some "20230101123000".toList ∧
+    pyInt " 007 ".toList = some 7 ∧ intStr 7 = "7".toList ∧ pyInt (intStr (-12)) = some (-12) ∧
     (checkDigits 14 2 (fun v => validDate (v.take 8) && validTime (v.drop 8)) "2023011".toList).toOption = none := by
   decide
 
